@@ -1402,6 +1402,39 @@ def g5flat(rng):
     return dict(decl=decl, eins=eins, mapping=mapping, ext=ext, env={}, tags=tags)
 
 
+def g7lz(rng, **opts):
+    """metrics cascades in which ONE buffer holds the same fiber of the same tensor in several Einsums with DIFFERENT styles (lazy in
+    one, eager in another) or types: T[m] = A[m, k] * B[k]; Z[m] = A[m, k] * T[m] (optionally a third Einsum)"""
+    n = rng.choice([2, 2, 3])
+    decl = {"A": ["M", "K"], "B": ["K"]}
+    eins, loop, st, bindings = [], {}, {}, {}
+    prev = "B"
+    for i in range(n):
+        out = "Z" if i == n - 1 else "T%d" % i
+        decl[out] = ["M"]
+        other = ("t", prev, [V("K")]) if prev == "B" else ("t", prev, [V("M")])
+        fs = [("t", "A", [V("M"), V("K")]), other]
+        if rng.random() < 0.3:
+            fs.reverse()
+        eins.append(dict(out=out, oidx=[V("M")], terms=[dict(kind="times", factors=fs, sel=None)]))
+        loop[out] = ["M", "K"]
+        st[out] = {"space": [], "time": ["M", "K"]}
+        style = rng.choice(["lazy", "eager"])
+        types = rng.choice([["coord"], ["payload"], ["coord", "payload"]]) if style == "lazy" else [rng.choice(["coord", "payload"])]
+        mem = [{"tensor": "A", "rank": "K", "type": t, "format": "default"} for t in ("coord", "payload")]
+        buf = [{"tensor": "A", "rank": "K", "type": t, "format": "default", "evict-on": "M", "style": style} for t in types]
+        bindings[out] = [{"config": "Accelerator", "prefix": "tmp/" + out}, {"component": "Mem", "bindings": mem}, {"component": "Buf", "bindings": buf},
+                         {"component": "FPMul", "bindings": [{"op": "mul"}]}]
+        prev = out
+    arch = {"Accelerator": [{"name": "System", "attributes": {"clock_frequency": 10 ** 9},
+                             "local": [{"name": "Mem", "class": "DRAM", "attributes": {"bandwidth": 1024}}],
+                             "subtree": [{"name": "Chip", "local": [{"name": "Buf", "class": "Buffet", "attributes": {"width": 64, "depth": 1024}},
+                                                                    {"name": "FPMul", "class": "Compute", "attributes": {"type": "mul"}}]}]}]}
+    fmt = {"A": {"default": {"rank-order": ["M", "K"], "M": {"format": "U", "pbits": 32}, "K": {"format": "C", "cbits": 32, "pbits": 64}}}}
+    return dict(decl=decl, eins=eins, mapping={"loop-order": loop, "spacetime": st}, architecture=arch, bindings=bindings, format=fmt,
+                ext={"M": rng.randint(1, 4), "K": rng.randint(1, 5)}, env={}, tags=["g7lz", "n%d" % n])
+
+
 def g5(rng):
     """cascade of 2-4 Einsums; later Einsums read earlier results"""
     n = rng.randint(2, 4)
